@@ -57,6 +57,23 @@ Theorem multiroot_is_union : forall c roots,
 Proof. exact multiroot_union_lemma. Qed.
 Print Assumptions multiroot_is_union.
 
+(* ... the status of every plugin is the one the Extract calls of all roots together dictate (a failure in any root,
+   not only the last, is listed) ... *)
+Theorem multiroot_statuses : forall c roots,
+  forallb fault_free roots = true -> no_limits c = true -> no_xpanic c -> c_paths c = [] ->
+  roots <> [] -> c_exts c <> [] ->
+  run_statuses (run c roots) = map (fun e => (e, expected_status c (flat_map (fs_calls c) roots) e)) (c_exts c).
+Proof. exact multiroot_statuses_lemma. Qed.
+Print Assumptions multiroot_statuses.
+
+(* ... and does not depend on the order in which the roots are given *)
+Theorem multiroot_status_order_invariant : forall c roots roots',
+  Permutation roots roots' -> forallb fault_free roots = true -> no_limits c = true -> no_xpanic c -> c_paths c = [] ->
+  roots <> [] -> c_exts c <> [] ->
+  statuses_equiv (run_statuses (run c roots)) (run_statuses (run c roots')).
+Proof. exact multiroot_status_order_lemma. Qed.
+Print Assumptions multiroot_status_order_invariant.
+
 (* non-vacuity *)
 Definition t_ab : node := Dc DOT [Dc nA [Fc nZ Reg 1 0; Fc nB Reg 1 0]; Fc nC Reg 1 0].
 Definition t_ba : node := Dc DOT [Fc nC Reg 1 0; Dc nA [Fc nB Reg 1 0; Fc nZ Reg 1 0]].
